@@ -369,6 +369,13 @@ func (s *Server) newSocket(
 		socket.close(ReasonTransportError, err)
 		return nil
 	}
+
+	// The server might have been closed after this request was admitted.
+	// `Close` closes the sockets in the store. This socket was not there yet. Close it here.
+	if s.IsClosed() {
+		socket.Close()
+		return nil
+	}
 	return socket
 }
 
